@@ -176,6 +176,22 @@ pub fn pairs() -> Vec<(&'static str, String, String)> {
     add("anon-bare-statement-no-output", "TN()(a);", "component ANON = TN();\n    ANON.in <== a;");
     add("anon-parallel", "s1 <== parallel T1()(a);", "component ANON = parallel T1();\n    ANON.in <== a;\n    s1 <== ANON.out;");
     add("anon-in-branch", "if (n > 1) {\n        s1 <== T1()(a);\n    }", "component ANON;\n    if (n > 1) {\n        ANON = T1();\n        ANON.in <== a;\n        s1 <== ANON.out;\n    }");
+    // Anonymous components in loop bodies: one instance per iteration.
+    add(
+        "anon-in-for-loop",
+        "signal t[2];\n    for (var i = 0; i < 2; i++) {\n        t[i] <== T1()(a + i);\n    }\n    s1 <== t[0] + t[1];",
+        "signal t[2];\n    component ANON[2];\n    for (var i = 0; i < 2; i++) {\n        ANON[i] = T1();\n        ANON[i].in <== a + i;\n        t[i] <== ANON[i].out;\n    }\n    s1 <== t[0] + t[1];",
+    );
+    add(
+        "anon-in-while-loop",
+        "signal t[2];\n    var j = 0;\n    while (j < 2) {\n        t[j] <-- T2(n)(in1 <-- a * a * b, in2 <== b);\n        j += 1;\n    }\n    s1 <== t[0] + t[1];",
+        "signal t[2];\n    var j = 0;\n    component ANON[2];\n    while (j < 2) {\n        ANON[j] = T2(n);\n        ANON[j].in1 <-- a * a * b;\n        ANON[j].in2 <== b;\n        t[j] <-- ANON[j].out;\n        j += 1;\n    }\n    s1 <== t[0] + t[1];",
+    );
+    add(
+        "anon-in-nested-loops",
+        "signal t[2][2];\n    for (var i = 0; i < 2; i++) {\n        for (var k = 0; k < 2; k++) {\n            (t[i][k], _) <== TO2()(a + i + k);\n        }\n    }\n    s1 <== t[0][0] + t[1][1];",
+        "signal t[2][2];\n    component ANON[2][2];\n    for (var i = 0; i < 2; i++) {\n        for (var k = 0; k < 2; k++) {\n            ANON[i][k] = TO2();\n            ANON[i][k].in <== a + i + k;\n            t[i][k] <== ANON[i][k].o1;\n        }\n    }\n    s1 <== t[0][0] + t[1][1];",
+    );
     // Every order of the named inputs x every operator assignment, for two and three inputs.
     let ops = ["<==", "<--"];
     let args2 = ["a * a * b", "b"];
